@@ -623,8 +623,10 @@ impl CanonicalRequest {
         let mut builder = SigV4Authenticator::builder();
 
         // Rule 7c: Use the first value for each key.
+        // Query parameter values are stored percent-encoded; the credential, session token and date must be used in their
+        // decoded form (a credential is sent as `AKID%2F20150830%2F...`), as is already done for the signed headers below.
         if let Some(credential) = self.query_parameters.get(X_AMZ_CREDENTIAL) {
-            builder.credential(credential[0].clone());
+            builder.credential(unescape_uri_encoding(&credential[0]));
         } else {
             missing_messages.push(MSG_QUERY_STRING_MUST_INCLUDE_CREDENTIAL);
         }
@@ -659,10 +661,10 @@ impl CanonicalRequest {
 
         // Get the session token if present.
         if let Some(token) = self.query_parameters.get(X_AMZ_SECURITY_TOKEN) {
-            builder.session_token(token[0].clone());
+            builder.session_token(unescape_uri_encoding(&token[0]));
         }
 
-        let timestamp_str = timestamp_str.expect("date_str should be set")[0].clone();
+        let timestamp_str = unescape_uri_encoding(&timestamp_str.expect("date_str should be set")[0]);
         Ok(AuthParams {
             builder,
             signed_headers,
